@@ -659,6 +659,13 @@ loop:
 				// The peer reset the stream, or it timed out, while the
 				// handler was running. It is already out of the stream table.
 				releaseStream(strm)
+
+				// See below: this may have been the last stream a GOAWAY
+				// was waiting for.
+				if isClosing() && canCloseAfterGoAway() {
+					break loop
+				}
+
 				continue
 			}
 
@@ -724,6 +731,12 @@ loop:
 					}
 				}
 			}
+
+			// A stream that timed out may have been the last one a GOAWAY
+			// was waiting for.
+			if isClosing() && canCloseAfterGoAway() {
+				break loop
+			}
 		case fr, ok := <-sc.reader:
 			if !ok {
 				return
@@ -762,6 +775,12 @@ loop:
 					}
 
 					sc.flushStreams(strms, closeStream)
+				}
+
+				// The credit may have let the last response a GOAWAY was
+				// waiting for go out.
+				if isClosing() && canCloseAfterGoAway() {
+					break loop
 				}
 
 				continue
